@@ -1,10 +1,12 @@
 use crate::engine::PropertyDef;
 use crate::fuzzglue::FuzzDef;
 
+pub mod c05;
 pub mod c13;
 
 pub fn registry() -> Vec<PropertyDef> {
   vec![
+    PropertyDef { id: "C05", run: c05::run, replay: c05::replay },
     PropertyDef { id: "C13", run: c13::run, replay: c13::replay },
   ]
 }
@@ -12,6 +14,7 @@ pub fn registry() -> Vec<PropertyDef> {
 /// Properties that have a libFuzzer target (harness/fuzz/fuzz_targets/*.rs) and how bytes become cases.
 pub fn fuzz_registry() -> Vec<FuzzDef> {
   vec![
+    FuzzDef { id: "C05", decode: c05::fuzz_decode },
     FuzzDef { id: "C13", decode: c13::fuzz_decode },
   ]
 }
